@@ -146,6 +146,15 @@ static std::string handle(const std::string & kind, const std::string & path)
         throw;
       }
       if (!tables_finite()) return "{\"verdict\":\"garbage\",\"detail\":\"the loaded table holds non-finite values (print / plot_interpolated_pdf show nan or inf)\"}";
+      if (kind == "pdf") {
+        // a probability density is non-negative (the interpolation is bilinear: no undershoot), also above the maximum energy sum
+        std::ostringstream os;
+        g.plot_interpolated_pdf(os, 12);
+        std::istringstream is(os.str());
+        double x, y, pr;
+        while (is >> x >> y >> pr)
+          if (pr < 0.0) return "{\"verdict\":\"garbage\",\"detail\":\"the loaded p.d.f. table is negative somewhere (plot_interpolated_pdf)\"}";
+      }
       for (double a : us)
         for (double b : us) {
           Seq r;
@@ -171,6 +180,7 @@ static std::string handle(const std::string & kind, const std::string & path)
         if (n.empty()) return "{\"verdict\":\"garbage\",\"detail\":\"empty dbd name\"}";
       for (auto & kv : bxdecay0::dbd_modes()) {
         if (kv.second.unique_label.empty()) return "{\"verdict\":\"garbage\",\"detail\":\"mode with empty label\"}";
+        if (kv.second.description.empty()) return "{\"verdict\":\"garbage\",\"detail\":\"mode record without description (a truncated record is stored)\"}";
         if ((int)kv.first != (int)kv.second.dbd_mode) return "{\"verdict\":\"garbage\",\"detail\":\"mode record stored under another id\"}";
         if (bxdecay0::dbd_mode_from_label(kv.second.unique_label) == bxdecay0::DBDMODE_UNDEF) return "{\"verdict\":\"garbage\",\"detail\":\"label does not map back\"}";
         // every stored field inside its enumeration: identifier 1..24, legacy Decay0 mode 1..20, "undefined" or "not available"
